@@ -1,9 +1,13 @@
 package harness
 
 import (
+	"context"
 	"fmt"
+	"net"
 	"strings"
 	"time"
+
+	"github.com/gorilla/websocket"
 
 	"go.nanomsg.org/mangos/v3"
 	"go.nanomsg.org/mangos/v3/verifsim/simrt"
@@ -35,7 +39,7 @@ func c10Run(w *W) {
 	w.SetShape("asyncdial", asyncDial)
 
 	mn := w.UseMsgNet()
-	mute := (tran == "sim" || tran == "simipc" || tran == "tcp" || tran == "ipc") && w.Choose(simrt.SShape, 3) == 0
+	mute := (tran == "sim" || tran == "simipc" || tran == "tcp" || tran == "ipc" || tran == "ws" || tran == "wss") && w.Choose(simrt.SShape, 3) == 0
 	ncfg := NetCfg{}
 	inflightBody := []byte("inflight")
 	if mute {
@@ -151,7 +155,25 @@ func c10Run(w *W) {
 	// a peer that completes the handshake and then never reads: whatever is sent
 	// towards it fills the connection and leaves a writer of the library blocked
 	// in the middle of a message when the close under test happens
-	if mute {
+	if mute && (tran == "ws" || tran == "wss") {
+		// (over WebSocket: a gorilla client that completes the upgrade with the
+		// right sub-protocol and then never reads a frame)
+		_, cliTLS := simTLS()
+		wd := &websocket.Dialer{Subprotocols: []string{s.Info().PeerName + ".sp.nanomsg.org"}, TLSClientConfig: cliTLS}
+		wd.NetDialContext = func(ctx context.Context, network, a string) (net.Conn, error) {
+			c, err := nt.Dial(NetKey("tcp://" + a))
+			if err == nil {
+				stalled = append(stalled, c)
+			}
+			return c, err
+		}
+		w.Go("mute ws peer", func() {
+			if _, _, err := wd.Dial(laddr, nil); err == nil {
+				w.Fault("backpressure")
+				w.Probe("ws-peer-attached-that-never-reads")
+			}
+		})
+	} else if mute {
 		if c, err := nt.Dial(NetKey(laddr)); err == nil {
 			c.Write(wcHeader(protoOf(peerKind[kind])))
 			stalled = append(stalled, c)
